@@ -307,7 +307,42 @@ func (in *Interp) lungoCall(fr *frame, fn *ssa.Function, full string, args []Val
 			}
 		}
 		return nil, false
-	case "github.com/256dpi/lungo/bsonkit.Transform":
+	case "github.com/256dpi/lungo/bsonkit.Transfer":
+		// codec stub: marshal + unmarshal = a structure-preserving copy of a BSON-like value into fresh
+		// memory (Go slices become arrays, string maps become documents). bsonkit.Transform,
+		// TransformList and Decode run from their real SSA on top of it.
+		if in.cfg.Params["oldcodecstubs"] == 1 {
+			return nil, false
+		}
+		src := in.force(args[0])
+		if src.T == nil {
+			return in.mkError("cannot transfer nil"), true
+		}
+		val, ok := in.toBSON(src)
+		if !ok {
+			in.fail("unsupported", "Transfer of "+src.T.String()+" (only BSON-like values are modelled; struct encoding is the codec's business)")
+		}
+		out := in.force(args[1])
+		dst, isPtr := out.V.(*Value)
+		if !isPtr || out.T == nil {
+			in.fail("unsupported", "Transfer into a non-pointer")
+		}
+		switch (*dst).(type) {
+		case SliceV:
+			// *bson.D
+			iv, isI := val.(*Iface)
+			if !isI {
+				in.fail("unsupported", "Transfer: source is not a document")
+			}
+			sl, isSl := iv.V.(SliceV)
+			if !isSl || !types.Identical(iv.T, in.tcache.named(primPkg, "D")) {
+				return in.mkError("cannot decode a non-document into a document"), true
+			}
+			in.store(dst, sl, pos)
+			return &Iface{}, true
+		}
+		in.fail("unsupported", "Transfer into "+out.T.String()+" (only *bson.D is modelled)")
+	case "github.com/256dpi/lungo/bsonkit.Transform-old":
 		// codec stub: document in, structure-preserving copy out
 		v := in.force(args[0])
 		if v.T == nil {
@@ -323,7 +358,7 @@ func (in *Interp) lungoCall(fr *frame, fn *ssa.Function, full string, args []Val
 		}
 		var c Value = in.deepCopy(sl)
 		return Tuple{&c, &Iface{}}, true
-	case "github.com/256dpi/lungo/bsonkit.TransformList":
+	case "github.com/256dpi/lungo/bsonkit.TransformList-old":
 		v := in.force(args[0])
 		if v.T == nil {
 			return Tuple{SliceV{Nil: true}, in.mkError("expected array")}, true
@@ -353,7 +388,7 @@ func (in *Interp) lungoCall(fr *frame, fn *ssa.Function, full string, args []Val
 		return Tuple{SliceV{D: d}, &Iface{}}, true
 	case "github.com/256dpi/lungo.assertOptions":
 		return nil, true
-	case "github.com/256dpi/lungo/bsonkit.Decode":
+	case "github.com/256dpi/lungo/bsonkit.Decode-old":
 		// codec stub: decode a document into *bson.D as a copy in fresh memory
 		src, ok := args[0].(*Value)
 		if !ok {
@@ -417,5 +452,112 @@ func (in *Interp) contextCall(fr *frame, fn *ssa.Function, full string, args []V
 }
 
 func (in *Interp) tombCall(fr *frame, fn *ssa.Function, full string, args []Value, pos token.Pos) (Value, bool) {
+	return nil, false
+}
+
+// toBSON converts a Go value as the codec would see it into the canonical BSON domain (primitive.D,
+// primitive.A, scalars) in FRESH memory: documents and arrays are copied, []interface{} and other
+// slices of BSON values become arrays, string-keyed maps become documents, pointers are followed,
+// binary payloads are copied. Lazy values are copied lazily (structural copy when forced).
+func (in *Interp) toBSON(v Value) (Value, bool) {
+	tc := in.tcache
+	switch x := v.(type) {
+	case *Lazy:
+		if x.Forced == nil {
+			return in.lazyCopy(x, nil), true
+		}
+		return in.toBSON(x.Forced)
+	case *Iface:
+		if x.T == nil {
+			return x, true
+		}
+		switch t := x.T.Underlying().(type) {
+		case *types.Pointer:
+			p, ok := x.V.(*Value)
+			if !ok {
+				return &Iface{}, true // nil pointer encodes as null
+			}
+			return in.toBSON(&Iface{T: t.Elem(), V: *p})
+		case *types.Slice:
+			sl, ok := x.V.(SliceV)
+			if !ok {
+				return nil, false
+			}
+			// a document: slice of {Key string; Value interface{}}
+			if st, ok := t.Elem().Underlying().(*types.Struct); ok && st.NumFields() == 2 && st.Field(0).Name() == "Key" {
+				d := make([]Value, len(sl.D))
+				for i, e := range sl.D {
+					es := e.(Struct)
+					cv, ok := in.toBSON(es[1])
+					if !ok {
+						return nil, false
+					}
+					d[i] = Struct{es[0], cv}
+				}
+				return &Iface{T: tc.named(primPkg, "D"), V: SliceV{D: d}}, true
+			}
+			// []byte stays binary data only inside primitive.Binary; other slices are arrays
+			if b, ok := t.Elem().Underlying().(*types.Basic); ok && b.Kind() == types.Uint8 {
+				return nil, false
+			}
+			d := make([]Value, len(sl.D))
+			for i, e := range sl.D {
+				ev := e
+				if _, isI := t.Elem().Underlying().(*types.Interface); !isI {
+					ev = &Iface{T: t.Elem(), V: e}
+				}
+				cv, ok := in.toBSON(ev)
+				if !ok {
+					return nil, false
+				}
+				d[i] = cv
+			}
+			return &Iface{T: tc.named(primPkg, "A"), V: SliceV{D: d}}, true
+		case *types.Map:
+			m, ok := x.V.(*MapV)
+			if !ok {
+				return &Iface{T: tc.named(primPkg, "D"), V: SliceV{D: []Value{}}}, true
+			}
+			var d []Value
+			for _, j := range m.live() {
+				k, ok := m.keys[j].(StrV)
+				if !ok {
+					return nil, false
+				}
+				ev := *m.vals[j]
+				if _, isI := t.Elem().Underlying().(*types.Interface); !isI {
+					ev = &Iface{T: t.Elem(), V: ev}
+				}
+				cv, ok := in.toBSON(ev)
+				if !ok {
+					return nil, false
+				}
+				d = append(d, Struct{k, cv})
+			}
+			if d == nil {
+				d = []Value{}
+			}
+			return &Iface{T: tc.named(primPkg, "D"), V: SliceV{D: d}}, true
+		case *types.Struct:
+			// primitive.Binary: copy the payload; other primitive structs are plain values
+			if types.Identical(x.T, tc.named(primPkg, "Binary")) {
+				st := x.V.(Struct)
+				data := st[1].(SliceV)
+				nd := make([]Value, len(data.D))
+				copy(nd, data.D)
+				return &Iface{T: x.T, V: Struct{st[0], SliceV{D: nd}}}, true
+			}
+			if n, ok := x.T.(*types.Named); ok && n.Obj().Pkg() != nil && (n.Obj().Pkg().Path() == primPkg || n.Obj().Pkg().Path() == bsonkitPkg) {
+				return &Iface{T: x.T, V: copyVal(x.V)}, true
+			}
+			return nil, false
+		case *types.Basic, *types.Array:
+			if b, ok := t.(*types.Basic); ok && b.Kind() == types.Int {
+				// a Go int encodes as int32 or int64 depending on its value: the codec's business
+				return nil, false
+			}
+			return &Iface{T: x.T, V: copyVal(x.V)}, true
+		}
+	}
 	return nil, false
 }
